@@ -323,6 +323,21 @@ def finish(res, spec, t0, workdir):
                violation_keys={k: n for k, n in res.violcounts.items()},
                known_findings_seen=sorted(seen_known), exhaustive=bool(getattr(spec, "EXHAUSTIVE", False)))
     cov.update(res.extra)
+    # thorough tier: reach monitor (gcov build of the same harnesses at 1/10 of the quick scale): executed lines / branch directions of the
+    # files named in the property's anchors.  Evidence only -- never a verdict; a failure of the reach run is recorded, not fatal.
+    if res.tier == "thorough" and not os.environ.get("VERIF_NO_REACH"):
+        try:
+            rdir = os.path.join(workdir, "reach")
+            env = dict(os.environ, VERIF_REACH_DIR=rdir)
+            subprocess.run([os.path.join(VERIF, "bin", "reach"), pid, "--scale-mult", "0.1", "--seed", str(res.seed)], env=env, stdout=subprocess.DEVNULL,
+                           stderr=subprocess.DEVNULL, timeout=1800, check=True)
+            rj = json.load(open(os.path.join(rdir, pid + ".json")))
+            cov["reach"] = dict(method="gcov -b on the cov flavour, same harnesses, 0.1 x quick scale",
+                                files={f: {k: d[k] for k in ("lines_instrumented", "lines_executed", "branch_directions", "branch_directions_taken")}
+                                       for f, d in rj.get("files", {}).items()},
+                                never_executed_lines={f: d["never_executed_lines"][:60] for f, d in rj.get("files", {}).items() if d.get("never_executed_lines")})
+        except Exception as e:       # pragma: no cover
+            cov["reach"] = dict(error=repr(e)[:300])
     if getattr(spec, "EXHAUSTIVE_SUBSPACES", None):
         cov["exhaustive_subspaces"] = spec.EXHAUSTIVE_SUBSPACES
     verdict = "violated" if bad else ("inconclusive" if (res.herrs or res.inconclusive or res.evals == 0) else "held")
